@@ -172,7 +172,8 @@ static Outcome encode_to_sink(const std::string& json_text, size_t capacity, int
 
 static Outcome encoder_nest(int ckind, size_t depth, int limit) {
     auto opt = json_options{}.max_nesting_depth(limit);
-    if (depth & 1) return encoder_nest_impl<json_string_encoder, std::string, json_options>(ckind, depth, opt, false);
+    // the pretty printer's output is quadratic in the depth (indentation), so it is used for moderate depths only
+    if ((depth & 1) && depth <= 2000) return encoder_nest_impl<json_string_encoder, std::string, json_options>(ckind, depth, opt, false);
     return encoder_nest_impl<compact_json_string_encoder, std::string, json_options>(ckind, depth, opt, false);
 }
 
